@@ -9,7 +9,14 @@ def run(c):
         rule=("random DAGs (<=7 jobs, <=2 process tokens with totals 1-4, heterogeneous requests, random exit codes, "
               "pre-existing markers, duplicates and re-submissions) under random delivery orders (single and batched) "
               "of lock/process/end-of-job completions, with experiment.wait() called mid-way and at exit; "
-              "non-trivial = at least two jobs and one dependency; distinct by (workload, schedule)"))
+              "non-trivial = at least two jobs and one dependency; distinct by (workload, schedule); + directed probes "
+              "with real job processes: two and three successive `with experiment` blocks in ONE process sharing a token "
+              "object (file-based and in-process, capacity 1 and 2) on which the jobs of the earlier blocks depended"))
+    schedlib.run_c06_cases(c)
+    schedlib.run_block_probes(c, "C06", [dict(mode="blocks", token="file", nblocks=3, per=2),
+                                         dict(mode="blocks", token="proc", nblocks=3, per=2),
+                                         dict(mode="blocks", token="file", nblocks=2, per=3, capacity=2, wait_jobs=False),
+                                         dict(mode="blocks", token="proc", nblocks=2, per=1, pause=1.0)])
 
 
 if __name__ == "__main__":
